@@ -56,10 +56,22 @@ def cases(tier, seed):
                     out.append(
                         dict(seed=seed, bg=dict(S.bg_for(setup), n=24, partial=6), probes=[list(st_loc) + [d]], cfg=S.cfg_for(setup, agg, "drop", 100, office="H"))
                     )
+    # gaussian group structures of C15 (own / state / all-units calibration side by side, one or two states): every group without
+    # outstanding units must carry a zero-width interval at its own counted votes, every prediction the sum of its units
+    import itertools
+
+    for pat in (["A", "A", "B"], ["A", "B"], ["A", "A", "A"]):
+        for cs in itertools.product([0, 1, 10], repeat=len(pat)):
+            for outs in itertools.product([False, True], repeat=len(pat)):
+                if not any(outs) or all(outs):
+                    continue
+                out.append({"structure": {"pattern": pat, "counts": list(cs), "outstanding": list(outs), "seed": seed}, "seed": seed, "probes": [], "bg": {}, "cfg": E.make_cfg(pi_method="gaussian", estimands=["turnout"], alphas=[0.7, 0.9], aggregates=["postal_code", "county_fips", "unit"], features=[])})
     return out
 
 
 def describe(case):
+    if "structure" in case:
+        return {"structure": case["structure"]}
     return {"probes": case["probes"], "bg": case["bg"], "cfg": {k: case["cfg"][k] for k in ("office", "pi_method", "estimands", "aggregates", "alphas", "policy")}}
 
 
@@ -127,7 +139,13 @@ def bootstrap_reference(client, units, cfg, cats, level, alpha):
 
 def evaluate(case):
     cov = Counter()
-    units = S.build_units(case)
+    if "structure" in case:
+        from . import c15
+
+        units = c15.build(case["structure"])[0]
+        cov["gaussian_structures"] += 1
+    else:
+        units = S.build_units(case)
     cfg = case["cfg"]
     pm = cfg["pi_method"]
     res = E.run_estimates(units, cfg, keep_client=True)
@@ -232,4 +250,4 @@ def evaluate(case):
     }
 
 
-REQUIRED_COUNTERS = {"runs_completed": 300, "pred_identities": 500, "interval_identities": 300, "bootstrap_rows_recomputed": 300}
+REQUIRED_COUNTERS = {"runs_completed": 300, "pred_identities": 500, "interval_identities": 300, "bootstrap_rows_recomputed": 300, "gaussian_structures": 50, "no_outstanding_rows": 200}
